@@ -199,3 +199,7 @@ add("myfs_reload_step", ["C07", "C18"], ["tu/myfs_step.c"], "h_myfs_reload_step"
     strength="B: my_fileset_reload from an arbitrary loaded set of <= 2 of 3 one-letter tables, setfile of <= 2 distinct lines, each table present or missing; resulting set of at most ONE entry (vector growth is cut)",
     functions=["my_fileset_reload", "setfile_updated", "fetch_entry", "cmp_fileset_entry", "path_exists", "my_fileset_get", "ubuf_add_cstr", "ubuf_rstrip", "ubuf_cstr"],
     assumptions=["stat / fopen / getline / fclose / dirname modelled (POSIX); bsearch and qsort modelled by their contracts over the caller's comparator", "names are one letter in directory d; setfile changes are detected by inode/mtime (as the code does)"])
+# ---------------------------------------------------------------- mtbl_verify sweep
+add("vf_sweep", ["C12", "C18"], ["tu/verify_step.c", "$REPO/mtbl/varint.c", "$REPO/mtbl/fixed.c"], "h_verify_sweep", unwind=12, timeout=600,
+    strength="B: verify_data_blocks over a symbolic file of 1..3 data blocks (6-byte payloads), v1/v2 framing, any subset of blocks damaged; trailer counts true",
+    functions=["verify_data_blocks", "mtbl_varint_decode64", "mtbl_fixed_decode32"], assumptions=["mmap returns the file's bytes; progress output (printf) not modelled"])
